@@ -136,6 +136,8 @@ impl<M> ActorRef<M> {
     pub fn cast(&self, msg: M) -> Result<(), MessagingErr<M>> { unimplemented!() }
 }
 verus! {
+/// `drop(x)` (pathmap): the value is given up where it stands; dropping an `RpcReplyPort` sends nothing and records nothing
+pub fn vx_drop<T>(t: T) {}
 /// an untyped actor reference: which actor
 #[verifier::external_body] pub struct ActorCell { _p: u8 }
 impl View for ActorCell { type V = int; uninterp spec fn view(&self) -> int; }
